@@ -706,6 +706,7 @@ pub uninterp spec fn is_ws(c: char) -> bool;
 // the characters of the input that are kept: everything except white space and characters without a display width (controls)
 spec fn keepc(c: char) -> bool { !is_ws(c) && cw(c).is_some() }
 spec fn kept(s: Seq<char>) -> Seq<char> decreases s.len() { if s.len() == 0 { Seq::empty() } else if keepc(s.last()) { kept(s.drop_last()).push(s.last()) } else { kept(s.drop_last()) } }
+proof fn lemma_kept_empty() ensures kept(Seq::<char>::empty()) =~= Seq::<char>::empty() {}
 proof fn lemma_kept_step(s: Seq<char>, i: int)
     requires 0 <= i < s.len(),
     ensures kept(s.take(i + 1)) =~= (if keepc(s[i]) { kept(s.take(i)).push(s[i]) } else { kept(s.take(i)) }),
@@ -716,10 +717,21 @@ spec fn tagged_by<T>(S: Seq<CItem<T>>, cs: Seq<char>, t1: T, t2: T) -> bool {
     S.len() == cs.len() && forall|i: int| 0 <= i < S.len() ==> ((#[trigger] S[i]) matches CItem::Ch(c, t) && c == cs[i] && (t == t1 || t == t2))
 }
 // all_ns(after) == all_ns(before) ++ acc for some acc that is the characters cs, in order, tagged m or w
-spec fn appended<T>(t0: Seq<TaggedLine<T>>, l0: Seq<TaggedLineElement<T>>, w0: Seq<TaggedLineElement<T>>, t1: Seq<TaggedLine<T>>, l1: Seq<TaggedLineElement<T>>, w1: Seq<TaggedLineElement<T>>,
-                   cs: Seq<char>, m: T, w: T) -> bool {
-    exists|acc: Seq<CItem<T>>| #[trigger] tagged_by(acc, cs, m, w) && all_ns(t1, l1, w1) =~= all_ns(t0, l0, w0) + acc
+spec fn appended_b<T>(base: Seq<CItem<T>>, t1: Seq<TaggedLine<T>>, l1: Seq<TaggedLineElement<T>>, w1: Seq<TaggedLineElement<T>>, cs: Seq<char>, m: T, w: T) -> bool {
+    exists|acc: Seq<CItem<T>>| #[trigger] tagged_by(acc, cs, m, w) && all_ns(t1, l1, w1) =~= base + acc
 }
+// a block without lines, line elements and word elements has no content
+proof fn lemma_all_ns_empty<T>(t: Seq<TaggedLine<T>>, l: Seq<TaggedLineElement<T>>, w: Seq<TaggedLineElement<T>>)
+    requires t.len() == 0, l.len() == 0, w.len() == 0,
+    ensures all_ns(t, l, w) =~= Seq::<CItem<T>>::empty(),
+{ reveal(content); }
+// white space only: nothing is kept
+spec fn all_ws(s: Seq<char>) -> bool { forall|i: int| 0 <= i < s.len() ==> is_ws(#[trigger] s[i]) }
+proof fn lemma_kept_ws(s: Seq<char>)
+    requires all_ws(s),
+    ensures kept(s) =~= Seq::<char>::empty(),
+    decreases s.len()
+{ if s.len() > 0 { assert(is_ws(s[s.len() - 1])); lemma_kept_ws(s.drop_last()); } }
 // a space pushed onto the current line does not change the non-space content
 proof fn lemma_space_pushed<T>(t: Seq<TaggedLine<T>>, la: Seq<TaggedLineElement<T>>, lb: Seq<TaggedLineElement<T>>, tg: T)
     requires flat(lb) =~= flat(la).push(CItem::Ch(' ', tg)),
@@ -1223,7 +1235,7 @@ impl<T: Clone + Eq + Debug + Default> WrappedBlock<T> {
 //@sub 2 /c\.is_whitespace\(\)/ ==> char_is_ws(c)
 //@auto C01 C02 C12
     #[verifier::loop_isolation(false)] //@w
-    #[verifier::rlimit(250)] //@w
+    #[verifier::rlimit(400)] //@w
     fn add_text(
         &mut self,
         text: &str,
@@ -1246,9 +1258,9 @@ impl<T: Clone + Eq + Debug + Default> WrappedBlock<T> {
             // L2 (C03, C09, C16): the block gains exactly the kept characters of `text` (everything but white space and characters //@w
             // without a display width), in order, after what it already held, each tagged with main_tag or wrap_tag; nothing is lost, //@w
             // duplicated or reordered by wrapping //@w
-            r.is_ok() ==> appended(old(self).text@, old(self).line.v@, old(self).word.v@, final(self).text@, final(self).line.v@, final(self).word.v@, kept(text@), *main_tag, *wrap_tag), //@w @C03 @C09 @C16 #text_appended_in_order_tagged
+            r.is_ok() ==> appended_b(all_ns(old(self).text@, old(self).line.v@, old(self).word.v@), final(self).text@, final(self).line.v@, final(self).word.v@, kept(text@), *main_tag, *wrap_tag), //@w @C03 @C09 @C16 #text_appended_in_order_tagged
     {
-        hide(sw); hide(cwid); hide(off); hide(flat); hide(flat_str); hide(flat_elt); hide(spaces); hide(lines_wf); hide(lines_fit); hide(ns); hide(lines_flat); hide(no_str); //@w
+        hide(sw); hide(cwid); hide(off); hide(flat); hide(flat_str); hide(flat_elt); hide(spaces); hide(lines_wf); hide(lines_fit); hide(ns); hide(lines_flat); hide(no_str); hide(kept); hide(all_ws); //@w
         html_trace!("WrappedBlock::add_text({}), {:?}", text, main_tag);
         // We walk character by character.
         // 1. First, build up whitespace columns in self.wslen
@@ -1261,7 +1273,7 @@ impl<T: Clone + Eq + Debug + Default> WrappedBlock<T> {
         let mut tag = if self.pre_wrapped { wrap_tag } else { main_tag };
         let ghost mut acc: Seq<CItem<T>> = Seq::empty(); //@w
         let ghost mut cs: Seq<char> = Seq::empty(); //@w
-        proof { lemma_tagged_empty(*main_tag, *wrap_tag); assert(text@.take(0) =~= Seq::<char>::empty()); } //@w
+        proof { lemma_tagged_empty(*main_tag, *wrap_tag); assert(text@.take(0) =~= Seq::<char>::empty()); lemma_kept_empty(); } //@w
         let ghost base = all_ns(self.text@, self.line.v@, self.word.v@); //@w
         for c in it: text.chars()
             invariant //@w
@@ -1408,7 +1420,8 @@ impl<T: Clone + Eq + Debug + Default> WrappedBlock<T> {
             }
             proof { lemma_kept_step(text@, it.index@); } //@w
         }
-        proof { assert(text@.take(text@.len() as int) =~= text@); } //@w
+        proof { assert(text@.take(text@.len() as int) =~= text@); assert(cs == kept(text@)); assert(tagged_by(acc, kept(text@), *main_tag, *wrap_tag)); //@w
+                assert(appended_b(base, self.text@, self.line.v@, self.word.v@, kept(text@), *main_tag, *wrap_tag)); } //@w
         Ok(())
     }
 //@end
